@@ -58,7 +58,7 @@ func arithType(a, b *Type) *Type {
 
 func lit(t *Type, bits uint32, line int) *Expr {
 	e := &Expr{op: xLit, t: t, line: line}
-	e.val.a[0] = cell(bits)
+	e.lit = cell(bits)
 	return e
 }
 
@@ -120,7 +120,7 @@ func (p *parser) convertX(e *Expr, to *Type, line int, explicit bool) *Expr {
 // foldScalarConv folds conversions of literals whose result cannot trap.
 func foldScalarConv(e *Expr, to *Type) (*Expr, bool) {
 	from := e.t
-	bits := uint32(e.val.a[0])
+	bits := uint32(e.lit)
 	if from.isIntLike() && from.Kind != KBool && (to.Kind == KInt || to.Kind == KUInt) {
 		return lit(to, bits, e.line), true
 	}
@@ -352,7 +352,7 @@ func (p *parser) constInt(e *Expr) (v uint32, ok bool) {
 		return 0, false
 	}
 	if e.op == xLit {
-		return uint32(e.val.a[0]), true
+		return uint32(e.lit), true
 	}
 	if !isConstExpr(e) {
 		return 0, false
@@ -413,9 +413,6 @@ func (p *parser) parseExpr() *Expr {
 		p.pos += 3
 		rhs := p.parseExpr()
 		return p.compound(lhs, bShr, rhs, line)
-	}
-	if t.text == "," && false {
-		panic(unsupported(line, "comma operator"))
 	}
 	return lhs
 }
@@ -1105,7 +1102,7 @@ func (p *parser) parsePrimary() *Expr {
 		return p.bitcast(ct, p.rvalue(a), line)
 	case "metal":
 		if p.isPN(1, "::") {
-			if p.isMetalTypeName(2) && !p.metalEnumAhead(2) {
+			if p.isMetalTypeName(2) {
 				return p.typeExpr(line)
 			}
 			p.pos += 2
@@ -1148,9 +1145,6 @@ func isQualifierWord(s string) bool {
 	}
 	return false
 }
-
-// metalEnumAhead: metal::raytracing::x::y style enumerators (unsupported anyway) – treated as types.
-func (p *parser) metalEnumAhead(n int) bool { return false }
 
 // typeExpr parses `T(args)` / `T{args}` where the cursor is at a type name.
 func (p *parser) typeExpr(line int) *Expr {
